@@ -33,9 +33,10 @@ hypothesis for compiled programs:
 * `end_to_end_text_tokens` — the same with ONE FLOAT TOKEN PER RECORD (the real file carries a different GC-content in
   every record).
 
-What remains: the GC-content field is an ARBITRARY token accepted by the reader's float alphabet (`[0-9.-]`, valid for
-`float()`); that Python's `"%f" % gc_content` prints such a token is not modelled (the model's `Mfe.output` writes the
-opaque token `GC` there, `mfeLines`).  Everything else in the chain is a theorem.
+In this file the GC-content field is an ARBITRARY token accepted by the reader's float alphabet (`[0-9.-]`, valid for
+`float()`), because the model's `Mfe.output` writes the opaque token `GC` there (`mfeLines`).  That Python's
+`"%f" % gc_content` prints such a token — and which one — is `PepperProps/C06Gc.lean` (`gcToken_shape`, `text_level`,
+`end_to_end_text_gc`: the same theorems for the text `Mfe.outputGc` writes, no token left free).
 -/
 namespace Pepper.C06.Text
 open Pepper Pepper.Pil Pepper.ConstraintGen Pepper.LinkSpec Pepper.EndToEnd Pepper.EndToEndText
